@@ -17,6 +17,7 @@ Seen(o) == [ rep |-> o.rep, eff |-> ToSet(o.eff), srec |-> o.srec, closed |-> o.
 Obj(act) ==
   CASE act.a = "hdr"  -> [a |-> "hdr", cmd |-> act.cmd, seq |-> act.seq]
     [] act.a = "body" -> [a |-> "body", cmd |-> act.cmd, v |-> act.v]
+    [] act.a = "batch" -> [a |-> "batch", objs |-> act.objs]
     [] OTHER          -> [a |-> act.a]
 
 TraceInit == Init /\ l = 1
@@ -31,11 +32,12 @@ Step ==
             /\ S' = NewS(Line.act.keyed) /\ obs' = NoObs /\ cst' = "" /\ steps' = 1
             /\ last' = Line.act /\ M' = MonStep(M, Line.act, NoObs)
      ELSE LET o    == Obj(Line.act)
-              r    == IF o.a = "close" THEN R([S EXCEPT !.open = FALSE], <<>>, {}) ELSE Recv(S, o)
+              r    == IF o.a = "close" THEN R([S EXCEPT !.open = FALSE], <<>>, {})
+                      ELSE IF o.a = "batch" THEN RecvAll(R(S, <<>>, {}), o.objs, 1) ELSE Recv(S, o)
               pred == ObsOf(S, r)
               seen == Seen(Line.obs)
           IN  /\ S' = r.S /\ obs' = seen /\ last' = Line.act /\ steps' = steps + 1 /\ cst' = ""
-              /\ M' = MonStep(M, o, seen)
+              /\ M' = MonAct(M, o, seen)
               /\ (pred.rep # seen.rep \/ pred.eff # seen.eff \/ pred.closed # seen.closed)
                     => PrintT(<<"DIVERGE", l>>)
   /\ \A c \in M'.bad \ M.bad : PrintT(<<"MONITOR", l, {c}, {}>>)    \* one short line per clause (TLC wraps long ones)
